@@ -1,30 +1,35 @@
 /-
   Tie A for the closed-form correlation functions (C03): the hand-written kernels of `GSV.Model.CovFn`
   (`gaussianCor`, `cubicCor`, …, the closed forms of `calc_integral_scale`) that the C03 theorems talk about
-  are EQUAL, for all parameters and all lags, to the definitions that `vlib/pyexpr2lean.py` regenerates from
+  are EQUAL over `ℝ`, for all parameters and all lags, to the definitions that `vlib/pyexpr2lean.py` regenerates from
   the current text of `src/gstools/covmodel/models.py` / `tpl_models.py` on every run of `./check`
   (`GSV/Gen/CorFormulas.lean`).
 
+  The theorems `*_eq_model_real` are the registered obligations.  They are proved by `tie_real`
+  (`GSV/Props/GenTieReal.lean`: unfold, vocabulary, normal form of roots / powers / ring subterms, split, `ring1 |
+  ring_nf | field_simp; ring1`), which keeps checking when a source formula is rewritten into a real-equal one and
+  stops checking on a semantic edit.  No side condition is needed for the elementary families.
+
   * Elementary families (Gaussian, Exponential, Stable, Rational, Cubic, Linear, Circular, Spherical,
-    TPLSimple; `calc_integral_scale` of Gaussian, Exponential, Integral): equality on EVERY carrier `α` by
-    `rfl` — the two texts have the same operator tree (`np.minimum / np.maximum` are the model's
-    `fmin / fmax`, the boolean-mask assignment of `Circular.cor` is the model's `if`).
+    TPLSimple; `calc_integral_scale` of Gaussian, Exponential, Integral): equality for all real arguments.  (The
+    carrier-polymorphic `rfl` form is in `GenTieCorExact.lean`, informative.)
   * Special-function families: the generated definition keeps the scipy function as an uninterpreted
-    parameter (`sps : Sps α`).  What is proved is the plumbing around it — mask, prefactors, argument
+    parameter (`sps : Sps ℝ`).  What is proved is the plumbing around it — mask, prefactors, argument
     expressions — relative to the stated reduction of the special function on the modelled slice (a
     hypothesis of the theorem, tied to scipy by the C03 correspondence, not by proof):
     `SuperSpherical.cor` (natural `nu`), `HyperSpherical.cor` (odd `dim`), `JBessel.cor` (all `nu`, and the
-    slices `nu = 1/2, 3/2`).
+    slices `nu = 1/2, 3/2`).  The hypothesis is normalised together with the goal (`tie_real_using`).
   A semantic edit of a formula changes the generated definition and the corresponding theorem stops checking.
 -/
 import GSV.RealInst
+import GSV.Props.GenTieReal
 import GSV.Model.CovFn
 import GSV.Gen.CorFormulas
 
 set_option linter.unusedSectionVars false
 
 namespace GSV.Props.GenTieCor
-open GSV GSV.Transc GSV.PyExpr GSV.Model.CovFn GSV.Gen.CorFormulas
+open GSV GSV.Transc GSV.PyExpr GSV.Model.CovFn GSV.Gen.CorFormulas GSV.Props.GenTieReal
 
 variable {α : Type} [Arith α] [Transc α] [DecidableLT α] [DecidableLE α]
 
@@ -32,71 +37,82 @@ variable {α : Type} [Arith α] [Transc α] [DecidableLT α] [DecidableLE α]
 
 theorem minimum_eq (a b : α) : minimum a b = fmin a b := rfl
 theorem maximum_eq (a b : α) : maximum a b = fmax a b := rfl
-theorem minimum_real (a b : ℝ) : minimum a b = min a b := by
-  unfold minimum; split <;> rename_i h
-  · exact (min_eq_left h.le).symm
-  · exact (min_eq_right (not_lt.mp h)).symm
-theorem maximum_real (a b : ℝ) : maximum a b = max a b := by
-  unfold maximum; split <;> rename_i h
-  · exact (max_eq_right h.le).symm
-  · exact (max_eq_left (not_lt.mp h)).symm
+theorem minimum_real (a b : ℝ) : minimum a b = min a b := GenTieReal.minimum_real a b
+theorem maximum_real (a b : ℝ) : maximum a b = max a b := GenTieReal.maximum_real a b
 
 /-- `np.isclose(h, 0)` is the model's `isclose0` (`|h| ≤ 1e-8`) at `ℝ` -/
 theorem isclose_zero_real (h : ℝ) : PyExpr.isclose h ((0:Nat):ℝ) = isclose0 h := by
   simp [PyExpr.isclose, isclose0]
 
-/-! ### elementary `cor` methods: same text as the model, on every carrier -/
+/-! ### the obligations: equality over `ℝ`, robust against real-equal rewrites of the source
 
-theorem Gaussian_cor_eq_model (h : α) : Gaussian.cor h = gaussianCor h := rfl
-theorem Exponential_cor_eq_model (h : α) : Exponential.cor h = exponentialCor h := rfl
-theorem Stable_cor_eq_model (alpha h : α) : Stable.cor alpha h = stableCor alpha h := rfl
-theorem Rational_cor_eq_model (alpha h : α) : Rational.cor alpha h = rationalCor alpha h := rfl
-theorem Cubic_cor_eq_model (h : α) : Cubic.cor h = cubicCor h := rfl
-theorem Linear_cor_eq_model (h : α) : Linear.cor h = linearCor h := rfl
-theorem Circular_cor_eq_model (h : α) : Circular.cor h = circularCor h := rfl
-theorem Spherical_cor_eq_model (h : α) : Spherical.cor h = sphericalCor h := rfl
-theorem TPLSimple_cor_eq_model (nu h : α) : TPLSimple.cor nu h = tplSimpleCor nu h := rfl
+`tie_cor G, M` unfolds the generated definition `G`, the model function `M` and the model's auxiliary polynomials, reads
+the model's `fmin / fmax` as numpy's and `np.isclose(h, 0)` as the model's `isclose0`, and runs `tie_real`. -/
+
+local macro "tie_cor " g:ident ", " m:ident : tactic =>
+  `(tactic| tie_real [$g:ident, $m:ident, cubicPoly, sphericalPoly, circularInner, ← minimum_eq, ← maximum_eq,
+      isclose_zero_real])
+
+theorem Gaussian_cor_eq_model_real (h : ℝ) : Gaussian.cor h = gaussianCor h := by
+  tie_cor Gaussian.cor, gaussianCor
+theorem Exponential_cor_eq_model_real (h : ℝ) : Exponential.cor h = exponentialCor h := by
+  tie_cor Exponential.cor, exponentialCor
+theorem Stable_cor_eq_model_real (alpha h : ℝ) : Stable.cor alpha h = stableCor alpha h := by
+  tie_cor Stable.cor, stableCor
+theorem Rational_cor_eq_model_real (alpha h : ℝ) : Rational.cor alpha h = rationalCor alpha h := by
+  tie_cor Rational.cor, rationalCor
+theorem Cubic_cor_eq_model_real (h : ℝ) : Cubic.cor h = cubicCor h := by
+  tie_cor Cubic.cor, cubicCor
+theorem Linear_cor_eq_model_real (h : ℝ) : Linear.cor h = linearCor h := by
+  tie_cor Linear.cor, linearCor
+theorem Circular_cor_eq_model_real (h : ℝ) : Circular.cor h = circularCor h := by
+  tie_cor Circular.cor, circularCor
+theorem Spherical_cor_eq_model_real (h : ℝ) : Spherical.cor h = sphericalCor h := by
+  tie_cor Spherical.cor, sphericalCor
+theorem TPLSimple_cor_eq_model_real (nu h : ℝ) : TPLSimple.cor nu h = tplSimpleCor nu h := by
+  tie_cor TPLSimple.cor, tplSimpleCor
 
 /-! ### closed forms of `calc_integral_scale` (`self.len_rescaled` is `lenRescaled p`) -/
 
-theorem Gaussian_calc_integral_scale_eq_model (p : Par α) :
-    Gaussian.calc_integral_scale (lenRescaled p) = gaussianCalcIS p := rfl
-theorem Exponential_calc_integral_scale_eq_model (p : Par α) :
-    Exponential.calc_integral_scale (lenRescaled p) = exponentialCalcIS p := rfl
-theorem Integral_calc_integral_scale_eq_model (nu : α) (p : Par α) :
-    Integral.calc_integral_scale (lenRescaled p) nu = integralCalcIS nu p := rfl
+theorem Gaussian_calc_integral_scale_eq_model_real (p : Par ℝ) :
+    Gaussian.calc_integral_scale (lenRescaled p) = gaussianCalcIS p := by
+  tie_cor Gaussian.calc_integral_scale, gaussianCalcIS
+theorem Exponential_calc_integral_scale_eq_model_real (p : Par ℝ) :
+    Exponential.calc_integral_scale (lenRescaled p) = exponentialCalcIS p := by
+  tie_cor Exponential.calc_integral_scale, exponentialCalcIS
+theorem Integral_calc_integral_scale_eq_model_real (nu : ℝ) (p : Par ℝ) :
+    Integral.calc_integral_scale (lenRescaled p) nu = integralCalcIS nu p := by
+  tie_cor Integral.calc_integral_scale, integralCalcIS
 
 /-! ### the statements at `ℝ` in Mathlib's vocabulary (what the C03 integrals are computed from) -/
 
 theorem Cubic_cor_real (h : ℝ) :
     Cubic.cor h = 1 - 7 * (min |h| 1) ^ 2 + 8.75 * (min |h| 1) ^ 3 - 3.5 * (min |h| 1) ^ 5
       + 0.75 * (min |h| 1) ^ 7 := by
-  simp only [Cubic.cor, minimum_real, fabs_real, npow_real]; push_cast; rfl
+  tie_real [Cubic.cor]
 
 theorem Spherical_cor_real (h : ℝ) :
     Spherical.cor h = 1 - 1.5 * (min |h| 1) + 0.5 * (min |h| 1) ^ 3 := by
-  simp only [Spherical.cor, minimum_real, fabs_real, npow_real]; push_cast; rfl
+  tie_real [Spherical.cor]
 
 theorem Gaussian_cor_real (h : ℝ) : Gaussian.cor h = Real.exp (-h ^ 2) := by
-  simp [Gaussian.cor]
+  tie_real [Gaussian.cor]
 
 /-! ### special-function families: the plumbing around the scipy call -/
 
 /-- `SuperSpherical.cor` with a natural `nu = n`: if `hyp2f1(0.5, -n, 1.5, ·)` is the terminating series
     (`hyp2f1HalfNegNat n`, proved to be Mathlib's `₂F₁` in `C03.superSpherical_nat_is_hypergeometric`), the
     method is the model's `superSphericalNatCor n` — mask `h < 1`, `fac = 1 / F(1)`, `1 - h * fac * F(h²)`. -/
-theorem SuperSpherical_cor_eq_model (sps : Sps α) (n : Nat)
-    (H : ∀ x : α, sps.hyp2f1 (0.5:α) (-((n:Nat):α)) (1.5:α) x = hyp2f1HalfNegNat n x) (h : α) :
-    SuperSpherical.cor sps ((n:Nat):α) h = superSphericalNatCor n h := by
-  simp only [SuperSpherical.cor, superSphericalNatCor, H]
+theorem SuperSpherical_cor_eq_model_real (sps : Sps ℝ) (n : Nat)
+    (H : ∀ x : ℝ, sps.hyp2f1 (0.5:ℝ) (-((n:Nat):ℝ)) (1.5:ℝ) x = hyp2f1HalfNegNat n x) (h : ℝ) :
+    SuperSpherical.cor sps ((n:Nat):ℝ) h = superSphericalNatCor n h := by
+  tie_real_using H [SuperSpherical.cor, superSphericalNatCor]
 
 /-- `HyperSpherical.cor` in odd dimension `2n+1` (`nu = (dim - 1) / 2 = n`), over `ℝ` -/
-theorem HyperSpherical_cor_eq_model (sps : Sps ℝ) (n : ℕ)
+theorem HyperSpherical_cor_eq_model_real (sps : Sps ℝ) (n : ℕ)
     (H : ∀ x : ℝ, sps.hyp2f1 (0.5:ℝ) (-((n:Nat):ℝ)) (1.5:ℝ) x = hyp2f1HalfNegNat n x) (h : ℝ) :
     HyperSpherical.cor sps (2 * n + 1) h = superSphericalNatCor n h := by
-  have e : -((((2 * n + 1 : Nat):ℝ) - ((1:Nat):ℝ)) / ((2:Nat):ℝ)) = -((n:Nat):ℝ) := by
-    push_cast; ring
-  simp only [HyperSpherical.cor, superSphericalNatCor, e, H]
+  tie_real_using H [HyperSpherical.cor, superSphericalNatCor]
 
 /-- in particular `dim = 1` is the model's Linear-type kernel and `dim = 3` the Spherical-type kernel
     (`C03.hyperSpherical_dims` identifies them with `linearCor`, `sphericalCor` on `h ≥ 0`) -/
@@ -105,25 +121,24 @@ theorem HyperSpherical_cor_dims (sps : Sps ℝ)
     some (HyperSpherical.cor sps 1 h) = (hyperSphericalCor 1).map (· h)
       ∧ some (HyperSpherical.cor sps 3 h) = (hyperSphericalCor 3).map (· h) := by
   refine ⟨?_, ?_⟩
-  · have := HyperSpherical_cor_eq_model sps 0 (H 0) h
+  · have := HyperSpherical_cor_eq_model_real sps 0 (H 0) h
     simpa [hyperSphericalCor] using this
-  · have := HyperSpherical_cor_eq_model sps 1 (H 1) h
+  · have := HyperSpherical_cor_eq_model_real sps 1 (H 1) h
     simpa [hyperSphericalCor] using this
 
 /-- `JBessel.cor` over `ℝ`: `1` on the `np.isclose(h, 0)` band (the model's `isclose0`), else
     `Γ(nu+1) J_nu(h) / (h/2)^nu` with the scipy functions as parameters -/
-theorem JBessel_cor_eq_model (sps : Sps ℝ) (nu h : ℝ) :
+theorem JBessel_cor_eq_model_real (sps : Sps ℝ) (nu h : ℝ) :
     JBessel.cor sps nu h
       = if isclose0 h then 1 else sps.gamma (nu + 1) * sps.jv nu h / (h / 2) ^ nu := by
-  rw [JBessel.cor, isclose_zero_real]
-  cases isclose0 h <;> simp
+  tie_real [JBessel.cor, isclose_zero_real]
 
 /-- the slice `nu = 1/2` on lags `h ≥ 0` (what `cor` is called with): under `Γ(3/2) J_{1/2}(h) / (h/2)^{1/2} = sin h / h`
     for `h > 0` this is the model's `jbessel12Cor` -/
 theorem JBessel_cor_half_eq_model (sps : Sps ℝ)
     (H : ∀ h : ℝ, 0 < h → sps.gamma (0.5 + 1) * sps.jv 0.5 h / (h / 2) ^ (0.5:ℝ) = Real.sin h / h)
     (h : ℝ) (hh : 0 ≤ h) : JBessel.cor sps 0.5 h = jbessel12Cor h := by
-  rw [JBessel_cor_eq_model, jbessel12Cor]
+  rw [JBessel_cor_eq_model_real, jbessel12Cor]
   rcases hh.eq_or_lt with h0 | hpos
   · have : isclose0 h = true := by rw [← h0]; simp [isclose0]; norm_num
     simp [this]
@@ -135,7 +150,7 @@ theorem JBessel_cor_three_halves_eq_model (sps : Sps ℝ)
     (H : ∀ h : ℝ, 0 < h → sps.gamma (1.5 + 1) * sps.jv 1.5 h / (h / 2) ^ (1.5:ℝ)
       = 3 * (Real.sin h - h * Real.cos h) / h ^ 3)
     (h : ℝ) (hh : 0 ≤ h) : JBessel.cor sps 1.5 h = jbessel32Cor h := by
-  rw [JBessel_cor_eq_model, jbessel32Cor]
+  rw [JBessel_cor_eq_model_real, jbessel32Cor]
   rcases hh.eq_or_lt with h0 | hpos
   · have : isclose0 h = true := by rw [← h0]; simp [isclose0]; norm_num
     simp [this]
